@@ -127,7 +127,8 @@ def mask_plane(data, wcs, region, negate=False):
 
     # put ALL the pixles into our vectorized functions
     # and minimise our overheads
-    ra, dec = wcs.wcs_pix2world(indexes, 1).transpose()
+    # indexes are 0-based array indices
+    ra, dec = wcs.wcs_pix2world(indexes, 0).transpose()
     bigmask = region.sky_within(ra, dec, degin=True)
     if not negate:
         bigmask = np.bitwise_not(bigmask)
